@@ -643,6 +643,18 @@ for kind in ("point", "sdh", "crack"):
         h_call = o1(np.array([0.3, 1.0]), np.array([-0.4, 2.5]), f_)
         f_full = o2.as_single_freq_matrices(f_, nang)                    # fresh object
         f_call = o2(np.array([0.3, 1.0]), np.array([-0.4, 2.5]), f_)
+        # ... and 2-D angle arrays whose incident angle varies along the FIRST axis, asked after the matrix requests,
+        # against an object that never computed a matrix (asked before o3 exists: two live objects of one class)
+        inc2_, out2_ = np.array([[0.3], [1.0], [-2.0]]), np.array([[-0.4, 2.5]])
+        o3 = _mk(kind)
+        h_2d = o1(inc2_, out2_, f_)
+        f_2d = o3(inc2_, out2_, f_)
+        for k in ("LL", "LT", "TL", "TT"):
+            if not _same(np.asarray(h_2d[k]), np.asarray(f_2d[k]), max(float(np.max(np.abs(np.asarray(f_2d[k])))), 1e-300)):
+                chk.violation(f"{kind}:matrix-then-call", f"{kind}: S_{k} on a column of incident angles against a row of scattered "
+                              "angles, asked after matrix requests on the same object, differs from a fresh object",
+                              dict(kind=kind, key=k, numangles=nang, frequency=f_, after_history=np.asarray(h_2d[k]), fresh=np.asarray(f_2d[k])),
+                              failing_input_found=True)
         evaluations += 8
         nontrivial.add(("history", kind, tuple(sorted(first))))
         sc_ = max(float(np.max(np.abs(v))) for v in f_full.values())
